@@ -362,7 +362,7 @@ pub fn c12_inherent_edge_list_n4() {
     inherent::<EdgeList, 4>(1);
 }
 
-// @verif prop=C12 tier=thorough fl=f2 role=inherent/adjacency-list t=3600 mem=24
+// @verif prop=C12 tier=exp fl=f2 role=inherent/adjacency-list t=3600 mem=24
 #[cfg_attr(kani, kani::proof)]
 #[cfg_attr(kani, kani::unwind(8))]
 pub fn c12_inherent_adjacency_list_n4_p6() {
